@@ -47,6 +47,242 @@ func runC08(c *core.Ctx) {
 
 	// ---- unwrap
 	checkUnwrap(c, ifuncs)
+
+	// ---- locks are released on every return (a leaked lock blocks the next request forever)
+	checkLockRelease(c, "sim.lock", ifuncs)
+
+	// ---- graph recursions guarded only by an on-path set are memoised
+	checkMemoisedGraphWalk(c, "sim.memo", ifuncs)
+}
+
+// checkMemoisedGraphWalk: a self-recursive function (usually a closure) that protects itself against cycles with an
+// "on the current path" set — marked before the recursive calls, unmarked after them — visits a node once per path
+// that leads to it: exponential in a call graph where subroutines are called from several places. It must also keep
+// a memo: a second map filled with the result on every completed call and consulted before the walk.
+func checkMemoisedGraphWalk(c *core.Ctx, rule string, funcs []*ssa.Function) {
+	n := 0
+	for _, fn := range funcs {
+		if len(fn.Params) == 0 {
+			continue
+		}
+		// self calls through the closure cell or directly
+		var selfCalls []ssa.CallInstruction
+		for _, b := range fn.Blocks {
+			for _, in := range b.Instrs {
+				call, ok := in.(ssa.CallInstruction)
+				if !ok {
+					continue
+				}
+				if call.Common().StaticCallee() == fn {
+					selfCalls = append(selfCalls, call)
+					continue
+				}
+				// dynamic call of a captured func variable that holds this very closure, possibly handed to a helper
+				for _, v := range append([]ssa.Value{call.Common().Value}, call.Common().Args...) {
+					if ld, ok := v.(*ssa.UnOp); ok && ld.Op == token.MUL {
+						if fv, ok := ld.X.(*ssa.FreeVar); ok && closureCellHolds(fn, fv) {
+							selfCalls = append(selfCalls, call)
+						}
+					}
+				}
+			}
+		}
+		if len(selfCalls) == 0 {
+			continue
+		}
+		// maps keyed by a parameter: marks (true), unmarks (false / delete), result stores, lookups
+		type mapUse struct {
+			setTrue, unset, storeOther []ssa.Instruction
+			lookups                    []*ssa.Lookup
+		}
+		uses := map[string]*mapUse{}
+		get := func(m ssa.Value) *mapUse {
+			k := mapRootName(m)
+			if k == "" {
+				return nil
+			}
+			if uses[k] == nil {
+				uses[k] = &mapUse{}
+			}
+			return uses[k]
+		}
+		isParam := func(v ssa.Value) bool {
+			for _, p := range fn.Params {
+				if v == ssa.Value(p) {
+					return true
+				}
+			}
+			return false
+		}
+		for _, b := range fn.Blocks {
+			for _, in := range b.Instrs {
+				switch t := in.(type) {
+				case *ssa.MapUpdate:
+					if !isParam(t.Key) {
+						continue
+					}
+					u := get(t.Map)
+					if u == nil {
+						continue
+					}
+					if k, ok := t.Value.(*ssa.Const); ok && k.Value != nil && k.Value.Kind() == constant.Bool {
+						if constant.BoolVal(k.Value) {
+							u.setTrue = append(u.setTrue, in)
+						} else {
+							u.unset = append(u.unset, in)
+						}
+					} else {
+						u.storeOther = append(u.storeOther, in)
+					}
+				case *ssa.Call:
+					if bi, ok := t.Common().Value.(*ssa.Builtin); ok && bi.Name() == "delete" && isParam(t.Common().Args[1]) {
+						if u := get(t.Common().Args[0]); u != nil {
+							u.unset = append(u.unset, in)
+						}
+					}
+				case *ssa.Lookup:
+					if isParam(t.Index) {
+						if u := get(t.X); u != nil {
+							u.lookups = append(u.lookups, t)
+						}
+					}
+				}
+			}
+		}
+		// an on-path set: marked before a self call and unmarked after it
+		onPath := ""
+		for name, u := range uses {
+			if len(u.setTrue) == 0 || len(u.unset) == 0 {
+				continue
+			}
+			for _, sc := range selfCalls {
+				before, after := false, false
+				for _, m := range u.setTrue {
+					if core.Reaches(m.Block(), sc.Block()) {
+						before = true
+					}
+				}
+				for _, m := range u.unset {
+					if core.Reaches(sc.Block(), m.Block()) {
+						after = true
+					}
+				}
+				if before && after {
+					onPath = name
+				}
+			}
+		}
+		if onPath == "" {
+			continue
+		}
+		n++
+		key := core.FnName(fn) + "|on-path:" + onPath
+		// the memo: another map, stored on every path after the unmark and consulted on entry
+		cd := core.NewCtrlDeps(fn)
+		memo := ""
+		for name, u := range uses {
+			if name == onPath || len(u.lookups) == 0 {
+				continue
+			}
+			for _, st := range append(append([]ssa.Instruction{}, u.storeOther...), u.setTrue...) {
+				for _, un := range uses[onPath].unset {
+					// the store happens whenever the unmark happens: same control dependences (straight-line with it)
+					if sameCtrl(cd, st.Block(), un.Block()) {
+						memo = name
+					}
+				}
+			}
+		}
+		if memo != "" {
+			c.Discharge(rule, key, fn.Pos(), "results are memoised in `"+memo+"` on every completed call and looked up before the walk")
+		} else {
+			c.Report(rule, key, fn.Pos(), fmt.Sprintf("%s walks a graph recursively and only guards against cycles with the on-path set `%s` (unmarked after the calls); no memo is filled on every completed call, so a node is re-walked once per path leading to it — exponential time on programs whose subroutines are called from several places", core.FnName(fn), onPath))
+		}
+	}
+	if n == 0 {
+		c.Info("%s: no recursion guarded by an on-path set found", rule)
+	}
+}
+
+// sameCtrl: blocks a and b are executed under exactly the same branch decisions.
+func sameCtrl(cd *core.CtrlDeps, a, b *ssa.BasicBlock) bool {
+	if a == b {
+		return true
+	}
+	ea, eb := cd.Transitive(a), cd.Transitive(b)
+	if len(ea) != len(eb) {
+		return false
+	}
+	set := map[core.CtrlEdge]bool{}
+	for _, e := range ea {
+		set[e] = true
+	}
+	for _, e := range eb {
+		if !set[e] {
+			return false
+		}
+	}
+	return true
+}
+
+// closureCellHolds: the free variable fv of closure fn is a cell of func type into which the parent stores fn itself.
+func closureCellHolds(fn *ssa.Function, fv *ssa.FreeVar) bool {
+	parent := fn.Parent()
+	if parent == nil {
+		return false
+	}
+	idx := -1
+	for i, v := range fn.FreeVars {
+		if v == fv {
+			idx = i
+		}
+	}
+	if idx < 0 {
+		return false
+	}
+	for _, b := range parent.Blocks {
+		for _, in := range b.Instrs {
+			mc, ok := in.(*ssa.MakeClosure)
+			if !ok || mc.Fn != ssa.Value(fn) || idx >= len(mc.Bindings) {
+				continue
+			}
+			cell := mc.Bindings[idx]
+			if cell.Referrers() == nil {
+				continue
+			}
+			for _, r := range *cell.Referrers() {
+				if st, ok := r.(*ssa.Store); ok && st.Addr == cell {
+					if m2, ok := st.Val.(*ssa.MakeClosure); ok && m2.Fn == ssa.Value(fn) {
+						return true
+					}
+				}
+			}
+		}
+	}
+	return false
+}
+
+// mapRootName: a stable name for the map a value denotes (captured variable, field or local).
+func mapRootName(v ssa.Value) string {
+	switch t := v.(type) {
+	case *ssa.UnOp:
+		if t.Op == token.MUL {
+			return mapRootName(t.X)
+		}
+	case *ssa.FreeVar:
+		return t.Name()
+	case *ssa.Alloc:
+		return t.Comment
+	case *ssa.MakeMap:
+		return t.Name()
+	case *ssa.FieldAddr:
+		if f := core.FieldOf(t); f != nil {
+			return "." + f.Name()
+		}
+	case *ssa.Parameter:
+		return t.Name()
+	}
+	return ""
 }
 
 // accessPath: canonical rendering of a value as base + field chain + conversions ("" if not expressible).
